@@ -3,6 +3,8 @@
 # Copyright (c) CERN, 2021.                   #
 # ########################################### #
 
+import numbers
+
 from .context import Kernel, Arg
 
 from .scalar import Int64, Void, Int8, is_scalar
@@ -168,8 +170,8 @@ def gen_method_offset(path, conf):
         else:
             soffset = None
 
-        if type(soffset) is int:
-            offset += soffset
+        if isinstance(soffset, numbers.Integral):  # also numpy integers
+            offset += int(soffset)
         elif type(soffset) is list:
             if offset > 0:
                 lst.append(f"  offset+={offset};")  # dump current offset
